@@ -37,3 +37,15 @@ UNITS.append(Unit('front.ActionSequence_.call4', ['C14', 'C02'], 'front',
 UNITS.append(Unit('front.Defer.call', ['C05', 'C14'], 'front', Part(FR, ['struct Defer'], 'void operator ( ) ( EVT & evt , FSM & fsm , SourceState & , TargetState & ) const'),
     'void defer_call(event_t evt, fsm_t* fsm, stref_t src, stref_t tgt)', 'functor_row.spec.h', defines=['UNIT_DEFER=1'],
     xform=back_xform([], refparams=(), rewrites=[dict(name='member-call', pat='fsm . defer_event (', rep='fsm_defer_event ( fsm ,', min=0, max=1)]), replay=['defer']))
+SD = 'front/state_machine_def.hpp'
+BRW = [dict(name='memfn-action', pat='( fsm . * action ) ( evt )', rep='call_member_action ( fsm , action , evt )', min=0, max=1),
+       dict(name='memfn-guard', pat='( fsm . * guard ) ( evt )', rep='call_member_guard ( fsm , guard , evt )', min=0, max=1)]
+xb = back_xform([], refparams=(), rewrites=BRW)
+for nm, has_a, has_g in (('a_row', 1, 0), ('row', 1, 1), ('g_row', 0, 1), ('a_irow', 1, 0), ('irow', 1, 1), ('g_irow', 0, 1)):
+    sc = ['struct ' + nm + ' {']
+    if has_a:
+        UNITS.append(Unit('front.basic.%s.action_call' % nm, ['C14', 'C02'], 'front', Part(SD, sc, 'action_call ( FSM & fsm , Event const & evt , SourceState & , TargetState & , AllStates & )'),
+            'HandledEnum basic_action_call(fsm_t* fsm, event_t evt)', 'functor_row.spec.h', defines=['UNIT_BASIC_ACTION=1'], xform=xb, replay=['order']))
+    if has_g:
+        UNITS.append(Unit('front.basic.%s.guard_call' % nm, ['C14', 'C02'], 'front', Part(SD, sc, 'guard_call ( FSM & fsm , Event const & evt , SourceState & , TargetState & , AllStates & )'),
+            '_Bool basic_guard_call(fsm_t* fsm, event_t evt)', 'functor_row.spec.h', defines=['UNIT_BASIC_GUARD=1'], xform=xb, replay=['order']))
